@@ -1,6 +1,6 @@
 # C12 spec (see tools/props.py)
 SPEC = {
-        "ready": False,
+        "ready": True,
         "sources": ["c12.cpp", "c12_shrt3d_f.cpp", "c12_shrt3d_d.cpp", "c12_shrt2d.cpp", "c12_svd.cpp", "c12_eigen.cpp", "c12_procrustes.cpp"],
         "lib": ["ImathMatrixAlgo.cpp"],
         "technique": "exhaustive enumeration of factor lattices (scale x shear x rotation x translation), complete small-integer matrix lattices and lattice point sets against long-double / exact-integer recomposition oracles",
